@@ -661,3 +661,431 @@ def _instant_addsub(m, args, ci):
         return lib_std.dur(sym.ite(sym.lt(d, 0), 0, d))
     d = lib_std.dur_ns(o)
     return Adt('Instant', None, {0: sym.add(a.fields[0], d) if ci.name.endswith('add') else sym.sub(a.fields[0], d)})
+
+# =======================================================================================================
+# batch 3: more iterator adapters, collect targets, integers, Ordering, mem::swap, strings
+# =======================================================================================================
+class ChainIt(IterBase):
+    def __init__(self, a, b):
+        self.a, self.b = a, b
+    def next(self, m):
+        if self.a is not None:
+            x = self.a.next(m)
+            if x is not None:
+                return x
+            self.a = None
+        return self.b.next(m)
+
+class FlatIt(IterBase):
+    """flat_map / flatten: inner values may be Vec / Option / iterators."""
+    def __init__(self, it, f):
+        self.it, self.f, self.cur = it, f, None
+    def _inner(self, m, v):
+        if isinstance(v, IterBase):
+            return v
+        if isinstance(v, Adt) and v.variant in ('Some', 'None'):
+            return OwnedIter([v.fields[0]] if v.variant == 'Some' else [])
+        if isinstance(v, Adt) and v.variant in ('Ok', 'Err'):
+            return OwnedIter([v.fields[0]] if v.variant == 'Ok' else [])
+        if isinstance(v, Seq):
+            return OwnedIter(v.items)
+        if isinstance(v, (Ref, Slice)):
+            s, a, b = seq_of(v)
+            return SliceIter(s, a, b, by_ref=True)
+        raise Unsupported('flatten over %r' % (v,))
+    def next(self, m):
+        while True:
+            if self.cur is not None:
+                x = self.cur.next(m)
+                if x is not None:
+                    return x
+                self.cur = None
+            o = self.it.next(m)
+            if o is None:
+                return None
+            self.cur = self._inner(m, _call(m, self.f, [o]) if self.f is not None else o)
+
+class WhileIt(IterBase):
+    def __init__(self, it, f, take):
+        self.it, self.f, self.take, self.done = it, f, take, False
+    def next(self, m):
+        if self.take:
+            if self.done:
+                return None
+            x = self.it.next(m)
+            if x is None:
+                return None
+            if _truth(m, _call(m, self.f, [Ref(Cell(x), 'v')]), 'take_while'):
+                return x
+            self.done = True
+            return None
+        while not self.done:
+            x = self.it.next(m)
+            if x is None:
+                return None
+            if not _truth(m, _call(m, self.f, [Ref(Cell(x), 'v')]), 'skip_while'):
+                self.done = True
+                return x
+        return self.it.next(m)
+
+class StepIt(IterBase):
+    def __init__(self, it, n):
+        self.it, self.n, self.first = it, n, True
+    def next(self, m):
+        if self.first:
+            self.first = False
+            return self.it.next(m)
+        x = None
+        for _ in range(self.n):
+            x = self.it.next(m)
+            if x is None:
+                return None
+        return x
+
+class PeekIt(IterBase):
+    def __init__(self, it):
+        self.it, self.buf, self.has = it, None, False
+    def peek(self, m):
+        if not self.has:
+            self.buf, self.has = self.it.next(m), True
+        return self.buf
+    def next(self, m):
+        if self.has:
+            self.has = False
+            return self.buf
+        return self.it.next(m)
+
+class InspectIt(IterBase):
+    def __init__(self, it, f):
+        self.it, self.f = it, f
+    def next(self, m):
+        x = self.it.next(m)
+        if x is not None:
+            _call(m, self.f, [Ref(Cell(x), 'v')])
+        return x
+
+@I.rx(r'^<.* as (Iterator|DoubleEndedIterator)>::(chain|flat_map|flatten|take_while|skip_while|step_by|peekable|inspect|fuse|product|'
+      r'unzip|partition|try_fold|try_for_each|rposition|min_by|max_by|eq|ne|reduce|map_while)$'
+      r'|^(std|core)::iter::Iterator::(chain|flat_map|flatten|take_while|skip_while|step_by|peekable|inspect|fuse|product|unzip|partition|'
+      r'try_fold|try_for_each|rposition|min_by|max_by|eq|ne|reduce|map_while)$', prio=1)
+def _iter_more(m, args, ci):
+    meth = ci.name.rsplit('::', 1)[1]
+    it = as_iter(m, args[0])
+    if meth == 'chain':
+        other = args[1]
+        if not isinstance(other, IterBase):
+            other = lib_std._into_iter(m, [other], ci)
+        return ChainIt(it, other)
+    if meth == 'flat_map':
+        return FlatIt(it, args[1])
+    if meth == 'flatten':
+        return FlatIt(it, None)
+    if meth in ('take_while', 'skip_while'):
+        return WhileIt(it, args[1], meth == 'take_while')
+    if meth == 'map_while':
+        f = args[1]
+        class _MW(IterBase):
+            def __init__(s2):
+                s2.done = False
+            def next(s2, m):
+                if s2.done:
+                    return None
+                x = it.next(m)
+                if x is None:
+                    return None
+                r = _call(m, f, [x])
+                if is_variant(r, 'Some'):
+                    return r.fields[0]
+                s2.done = True
+                return None
+        return _MW()
+    if meth == 'step_by':
+        n = args[1]
+        if isinstance(n, T):
+            n = m.concretize(n, 1, 64, 'step_by')
+        if n == 0:
+            raise Panic('assertion failed: step != 0')
+        return StepIt(it, n)
+    if meth == 'peekable':
+        return PeekIt(it)
+    if meth == 'inspect':
+        return InspectIt(it, args[1])
+    if meth == 'fuse':
+        return it
+    if meth == 'product':
+        acc = 1
+        while True:
+            x = it.next(m)
+            if x is None:
+                return acc
+            acc = m.mul(acc, deref_val(x)) if hasattr(m, 'mul') else sym.mul(acc, deref_val(x))
+    if meth == 'reduce':
+        acc = it.next(m)
+        if acc is None:
+            return none()
+        while True:
+            x = it.next(m)
+            if x is None:
+                return some(acc)
+            acc = _call(m, args[1], [acc, x])
+    if meth in ('unzip', 'partition'):
+        a, b = [], []
+        while True:
+            x = it.next(m)
+            if x is None:
+                break
+            if meth == 'unzip':
+                a.append(x.fields[0]); b.append(x.fields[1])
+            elif _truth(m, _call(m, args[1], [Ref(Cell(x), 'v')]), 'partition'):
+                a.append(x)
+            else:
+                b.append(x)
+        return tuple_(Seq(a, 'vec'), Seq(b, 'vec'))
+    if meth in ('try_fold', 'try_for_each'):
+        acc = args[1] if meth == 'try_fold' else unit()
+        f = args[2] if meth == 'try_fold' else args[1]
+        while True:
+            x = it.next(m)
+            if x is None:
+                break
+            r = _call(m, f, [acc, x] if meth == 'try_fold' else [x])
+            if isinstance(r, Adt) and r.variant in ('Err', 'None', 'Break'):
+                return r
+            acc = r.fields[0] if isinstance(r, Adt) and r.variant in ('Ok', 'Some', 'Continue') else r
+        dty = ci.dest_type(m) or ''
+        return some(acc) if type_head(dty).endswith('Option') else ok(acc)
+    if meth == 'rposition':
+        items = []
+        while True:
+            x = it.next(m)
+            if x is None:
+                break
+            items.append(x)
+        for i in range(len(items) - 1, -1, -1):
+            if _truth(m, _call(m, args[1], [items[i]]), 'rposition'):
+                return some(i)
+        return none()
+    if meth in ('min_by', 'max_by'):
+        best = it.next(m)
+        if best is None:
+            return none()
+        while True:
+            x = it.next(m)
+            if x is None:
+                return some(best)
+            o = _call(m, args[1], [Ref(Cell(best), 'v'), Ref(Cell(x), 'v')])
+            if meth == 'max_by' and o.variant != 'Greater':
+                best = x
+            elif meth == 'min_by' and o.variant == 'Greater':
+                best = x
+    if meth in ('eq', 'ne'):
+        other = args[1] if isinstance(args[1], IterBase) else lib_std._into_iter(m, [args[1]], ci)
+        acc = True
+        while True:
+            a, b = it.next(m), other.next(m)
+            if a is None or b is None:
+                same_len = a is None and b is None
+                r = acc if same_len else False
+                return r if meth == 'eq' else sym.not_(r)
+            e = value_eq(m, deref_val(a) if isinstance(a, Ref) else a, deref_val(b) if isinstance(b, Ref) else b)
+            acc = e if acc is True else sym.and_(acc, e)
+    raise Unsupported('Iterator::' + meth)
+
+@I.rx(r'(^|::)Peekable::(peek|peek_mut|next_if|next_if_eq)$')
+def _peekable_ops(m, args, ci):
+    p = as_iter(m, args[0])
+    meth = ci.name.rsplit('::', 1)[1]
+    x = p.peek(m)
+    if meth in ('peek', 'peek_mut'):
+        return none() if x is None else some(Ref(Cell(x), 'v'))
+    if x is None:
+        return none()
+    if meth == 'next_if':
+        keep = _truth(m, _call(m, args[1], [Ref(Cell(x), 'v')]), 'next_if')
+    else:
+        keep = _truth(m, value_eq(m, x, deref_val(args[1])), 'next_if_eq')
+    if keep:
+        p.has = False
+        return some(x)
+    return none()
+
+@I.rx(r'^<(std::option::)?Option as IntoIterator>::into_iter$|(^|::)Option::(iter|iter_mut)$', prio=2)
+def _opt_iter(m, args, ci):
+    o = _opt(args[0])
+    if o.variant == 'None':
+        return OwnedIter([])
+    return OwnedIter([o.fields[0] if ci.name.endswith('into_iter') else Ref(o, 0)])
+
+# ---- integers ------------------------------------------------------------------------------------------
+_INT = r'(u8|u16|u32|u64|u128|usize|i8|i16|i32|i64|i128|isize)'
+
+@I.rx(r'(^|::)num::<impl %s>::(clamp|div_euclid|rem_euclid|signum|unsigned_abs|to_le_bytes|from_le_bytes|to_ne_bytes|is_positive|is_negative)$'
+      r'|^<%s as Ord>::clamp$|^(std|core)::cmp::Ord::clamp$' % (_INT, _INT))
+def _int_more(m, args, ci):
+    meth = ci.name.rsplit('::', 1)[1]
+    mm = re.search(_INT, ci.name)
+    ty = sym.INT_TYPES.get(mm.group(1)) if mm else None
+    x = args[0]
+    if meth == 'clamp':
+        lo, hi = args[1], args[2]
+        if _truth(m, sym.gt(lo, hi), 'clamp.assert'):
+            raise Panic('assertion failed: min <= max')
+        return sym.ite(sym.lt(x, lo), lo, sym.ite(sym.gt(x, hi), hi, x))
+    if meth in ('div_euclid', 'rem_euclid'):
+        y = args[1]
+        if _truth(m, sym.eq(y, 0), meth + '.zero'):
+            raise Panic('attempt to divide by zero')
+        if ty is not None and ty.lo == 0:
+            return m.divrem('Div' if meth == 'div_euclid' else 'Rem', x, y, ty)
+        raise Unsupported(meth + ' on a signed type')
+    if meth == 'signum':
+        return sym.ite(sym.gt(x, 0), 1, sym.ite(sym.lt(x, 0), -1, 0))
+    if meth == 'unsigned_abs':
+        return sym.ite(sym.lt(x, 0), sym.sub(0, x), x)
+    if meth == 'is_positive':
+        return sym.gt(x, 0)
+    if meth == 'is_negative':
+        return sym.lt(x, 0)
+    if meth in ('to_le_bytes', 'to_ne_bytes'):
+        n = ty.bits // 8
+        v = x if ty.lo == 0 else sym.ite(sym.lt(x, 0), sym.add(x, 1 << ty.bits), x)
+        out = []
+        for i in range(n):
+            out.append(sym.mod(sym.div(v, 1 << (8 * i)), 256) if isinstance(v, T) else (v >> (8 * i)) & 0xff)
+        return Seq(out, 'array')
+    if meth == 'from_le_bytes':
+        s, a, b = seq_of(args[0])
+        acc = 0
+        for i, byte in enumerate(s.items[a:b]):
+            acc = sym.add(acc, sym.mul(byte, 1 << (8 * i)))
+        if ty.lo < 0:
+            acc = sym.ite(sym.ge(acc, 1 << (ty.bits - 1)), sym.sub(acc, 1 << ty.bits), acc)
+        return acc
+    raise Unsupported(ci.name)
+
+# ---- Ordering ------------------------------------------------------------------------------------------
+@I.rx(r'(^|::)Ordering::(is_lt|is_le|is_gt|is_ge|is_eq|is_ne|reverse|then|then_with)$')
+def _ordering_ops(m, args, ci):
+    o = deref_val(args[0]) if isinstance(args[0], Ref) else args[0]
+    v = o.variant
+    meth = ci.name.rsplit('::', 1)[1]
+    if meth.startswith('is_'):
+        return {'is_lt': v == 'Less', 'is_le': v != 'Greater', 'is_gt': v == 'Greater', 'is_ge': v != 'Less',
+                'is_eq': v == 'Equal', 'is_ne': v != 'Equal'}[meth]
+    if meth == 'reverse':
+        return Adt(o.ty, {'Less': 'Greater', 'Greater': 'Less', 'Equal': 'Equal'}[v], {})
+    if v != 'Equal':
+        return o
+    return args[1] if meth == 'then' else _call(m, args[1], [])
+
+# ---- mem::swap -------------------------------------------------------------------------------------------
+@I.add('std::mem::swap', 'core::mem::swap')
+def _mem_swap(m, args, ci):
+    a, b = args[0], args[1]
+    va, vb = a.get(), b.get()
+    a.set(vb)
+    b.set(va)
+    return unit()
+
+# ---- Vec extras ------------------------------------------------------------------------------------------
+@I.rx(r'^(std::vec::)?Vec::resize$')
+def _vec_resize(m, args, ci):
+    s = vec_target(args[0])
+    n = args[1]
+    if isinstance(n, T):
+        n = m.concretize(n, 0, 4096, 'resize')
+    while len(s.items) > n:
+        m.drop_value(s.items.pop())
+    while len(s.items) < n:
+        s.items.append(clone_value(m, args[2]))
+    return unit()
+
+@I.rx(r'^(core::slice::|std::slice::|alloc::slice::)?<impl \[.*\]>::(sort|sort_unstable|sort_by_key|sort_unstable_by_key|sort_by|sort_unstable_by|reverse|swap|is_sorted)$')
+def _slice_sort(m, args, ci):
+    s, a, b = seq_of(args[0])
+    meth = ci.name.rsplit('::', 1)[1]
+    if meth == 'reverse':
+        s.items[a:b] = s.items[a:b][::-1]
+        return unit()
+    if meth == 'swap':
+        i, j = args[1], args[2]
+        if isinstance(i, T):
+            i = m.concretize(i, 0, b - a, 'swap')
+        if isinstance(j, T):
+            j = m.concretize(j, 0, b - a, 'swap')
+        if i >= b - a or j >= b - a:
+            raise Panic('index out of bounds')
+        s.items[a + i], s.items[a + j] = s.items[a + j], s.items[a + i]
+        return unit()
+    def less(x, y):
+        if meth in ('sort', 'sort_unstable', 'is_sorted'):
+            return _truth(m, sym.lt(deref_val(x) if isinstance(x, Ref) else x, deref_val(y) if isinstance(y, Ref) else y), 'sort<')
+        if meth.endswith('by_key'):
+            return _truth(m, sym.lt(_call(m, args[1], [Ref(Cell(x), 'v')]), _call(m, args[1], [Ref(Cell(y), 'v')])), 'sort<')
+        return _call(m, args[1], [Ref(Cell(x), 'v'), Ref(Cell(y), 'v')]).variant == 'Less'
+    xs = s.items[a:b]
+    if meth == 'is_sorted':
+        return all(not less(xs[i + 1], xs[i]) for i in range(len(xs) - 1))
+    # stable insertion sort (the result of a stable sort is unique; the unstable variants are only specified up to the
+    # order of equal elements, which this makes deterministic)
+    out = []
+    for x in xs:
+        k = len(out)
+        while k > 0 and less(x, out[k - 1]):
+            k -= 1
+        out.insert(k, x)
+    s.items[a:b] = out
+    return unit()
+
+@I.rx(r'^(std::vec::)?Vec::(dedup|dedup_by_key)$')
+def _vec_dedup(m, args, ci):
+    s = vec_target(args[0])
+    out = []
+    for x in s.items:
+        if out:
+            if ci.name.endswith('dedup'):
+                same = _truth(m, value_eq(m, out[-1], x), 'dedup')
+            else:
+                same = _truth(m, sym.eq(_call(m, args[1], [Ref(Cell(out[-1]), 'v')]), _call(m, args[1], [Ref(Cell(x), 'v')])), 'dedup')
+            if same:
+                continue
+        out.append(x)
+    s.items[:] = out
+    return unit()
+
+# ---- concrete strings --------------------------------------------------------------------------------------
+@I.rx(r'^(core::str::|std::str::)?<impl str>::(starts_with|ends_with|contains|trim|trim_start|trim_end|to_owned|to_string|eq_ignore_ascii_case)$', prio=1)
+def _str_more(m, args, ci):
+    s, a, b = seq_of(args[0])
+    meth = ci.name.rsplit('::', 1)[1]
+    if s.tag is not None and not s.items:
+        if meth in ('to_owned', 'to_string'):
+            return Seq([], 'str', s.tag)
+        raise Unsupported('%s on a string known only by identity' % meth)
+    xs = s.items[a:b]
+    if any(isinstance(x, T) for x in xs):
+        raise Unsupported('%s on a string with symbolic bytes' % meth)
+    if meth in ('to_owned', 'to_string'):
+        return Seq(list(xs), 'str')
+    if meth.startswith('trim'):
+        lo, hi = 0, len(xs)
+        ws = (9, 10, 11, 12, 13, 32)
+        if meth in ('trim', 'trim_start'):
+            while lo < hi and xs[lo] in ws:
+                lo += 1
+        if meth in ('trim', 'trim_end'):
+            while hi > lo and xs[hi - 1] in ws:
+                hi -= 1
+        return Slice(s, a + lo, a + hi)
+    t, c, d = seq_of(args[1])
+    ys = t.items[c:d]
+    if any(isinstance(y, T) for y in ys) or (t.tag is not None and not t.items):
+        raise Unsupported('%s with a symbolic pattern' % meth)
+    bx, by = bytes(xs), bytes(ys)
+    if meth == 'starts_with':
+        return bx.startswith(by)
+    if meth == 'ends_with':
+        return bx.endswith(by)
+    if meth == 'contains':
+        return by in bx
+    return bx.lower() == by.lower()
